@@ -63,11 +63,18 @@ Inductive instr : Type :=
 | I_val_expression (reg len : lebval) (e : list Z)    (* 0x16 ULEB128, BLOCK *)
 (* vendor extensions (DW_CFA_lo_user 0x1c .. DW_CFA_hi_user 0x3f) *)
 | I_GNU_window_save                                (* 0x2d, also DW_CFA_AARCH64_negate_ra_state *)
-| I_GNU_args_size (n : lebval).                       (* 0x2e ULEB128 *)
+| I_GNU_args_size (n : lebval)                        (* 0x2e ULEB128 *)
+(* further vendor opcodes of the binutils / LLVM registries.  pyelftools does not implement them
+   today (it refuses them with DWARFError), so they are outside the theorems (wf_instr is false
+   for them); they are specified here so that a port of them is checked against their definition
+   by the correspondence as soon as the live module names them. *)
+| I_MIPS_advance_loc8 (delta : Z)                  (* 0x1d ALWAYS an 8-byte delta (binutils byte_get 8) *)
+| I_AARCH64_negate_ra_state_with_pc                (* 0x2c no operands *)
+| I_GNU_negative_offset_extended (reg off : lebval).  (* 0x2f ULEB128 register, ULEB128 offset, negated *)
 
 (* Table 7.29 with the names, for the comparison with the library's constants *)
 Open Scope string_scope.
-Definition spec_DW_CFA : list (string * Z) := [
+Definition spec_DW_CFA_core : list (string * Z) := [
   ("DW_CFA_advance_loc", 0x40); ("DW_CFA_offset", 0x80); ("DW_CFA_restore", 0xc0);
   ("DW_CFA_nop", 0x00); ("DW_CFA_set_loc", 0x01); ("DW_CFA_advance_loc1", 0x02);
   ("DW_CFA_advance_loc2", 0x03); ("DW_CFA_advance_loc4", 0x04);
@@ -82,6 +89,13 @@ Definition spec_DW_CFA : list (string * Z) := [
   ("DW_CFA_GNU_window_save", 0x2d); ("DW_CFA_AARCH64_negate_ra_state", 0x2d);
   ("DW_CFA_GNU_args_size", 0x2e)
 ].
+(* names of the registries (binutils dwarf2.def, LLVM Dwarf.def) a library may or may not know *)
+Definition spec_DW_CFA_vendor : list (string * Z) := [
+  ("DW_CFA_lo_user", 0x1c); ("DW_CFA_MIPS_advance_loc8", 0x1d);
+  ("DW_CFA_AARCH64_negate_ra_state_with_pc", 0x2c);
+  ("DW_CFA_GNU_negative_offset_extended", 0x2f); ("DW_CFA_hi_user", 0x3f)
+].
+Definition spec_DW_CFA : list (string * Z) := spec_DW_CFA_core ++ spec_DW_CFA_vendor.
 Close Scope string_scope.
 
 (* the opcode byte *)
@@ -115,6 +129,9 @@ Definition opcode_of (i : instr) : Z :=
   | I_val_expression _ _ _ => 0x16
   | I_GNU_window_save => 0x2d
   | I_GNU_args_size _ => 0x2e
+  | I_MIPS_advance_loc8 _ => 0x1d
+  | I_AARCH64_negate_ra_state_with_pc => 0x2c
+  | I_GNU_negative_offset_extended _ _ => 0x2f
   end.
 
 (* the operand bytes; [le] = byte order of the object file, [asize] = size of a target
@@ -122,7 +139,9 @@ Definition opcode_of (i : instr) : Z :=
 Definition operands_of (le : bool) (asize : nat) (i : instr) : list Z :=
   match i with
   | I_advance_loc _ | I_restore _ | I_nop | I_remember_state | I_restore_state
-  | I_GNU_window_save => []
+  | I_GNU_window_save | I_AARCH64_negate_ra_state_with_pc => []
+  | I_MIPS_advance_loc8 d => int_encode le 8 d
+  | I_GNU_negative_offset_extended r o => lb r ++ lb o
   | I_offset _ o => lb o
   | I_set_loc a => int_encode le asize a
   | I_advance_loc1 d => int_encode le 1 d
@@ -166,6 +185,23 @@ Definition wf_instr (asize : nat) (i : instr) : bool :=
   | I_def_cfa_offset_sf o => wf_sleb o
   | I_def_cfa_expression len e => wf_block len e
   | I_expression r len e | I_val_expression r len e => wf_uleb r && wf_block len e
+  | I_MIPS_advance_loc8 _ | I_AARCH64_negate_ra_state_with_pc
+  | I_GNU_negative_offset_extended _ _ => false        (* not implemented: outside the theorems *)
+  end.
+
+(* well-formedness including the optional vendor opcodes (used by the correspondence only) *)
+Definition wf_instr_ext (asize : nat) (i : instr) : bool :=
+  match i with
+  | I_MIPS_advance_loc8 d => fits_u 8 d
+  | I_AARCH64_negate_ra_state_with_pc => true
+  | I_GNU_negative_offset_extended r o => wf_uleb r && wf_uleb o
+  | _ => wf_instr asize i
+  end.
+Definition is_optional (i : instr) : bool :=
+  match i with
+  | I_MIPS_advance_loc8 _ | I_AARCH64_negate_ra_state_with_pc
+  | I_GNU_negative_offset_extended _ _ => true
+  | _ => false
   end.
 
 Definition wf_instrs (asize : nat) (is : list instr) : bool := forallb (wf_instr asize) is.
@@ -177,6 +213,8 @@ Definition low6_ok (i : instr) : bool :=
   | I_advance_loc d => (0 <=? d) && (d <? 64)
   | I_offset r _ => (0 <=? r) && (r <? 64)
   | I_restore r => (0 <=? r) && (r <? 64)
+  | I_MIPS_advance_loc8 _ | I_AARCH64_negate_ra_state_with_pc
+  | I_GNU_negative_offset_extended _ _ => false        (* not implemented: outside the theorems *)
   | _ => true
   end.
 Definition low6_all (is : list instr) : bool := forallb low6_ok is.
